@@ -129,8 +129,7 @@ theorem loadPing_sound (h : Head) (p : Bytes) (f : Model.Frame.Frame) (hl : load
       congr 2
       rw [Bool.eq_iff_iff]
       simp only [Spec.Frame.flag, beq_iff_eq, decide_eq_true_eq]
-      have := and_pow_ne_zero_iff h.flag 0
-      simp [this]
+      simp
 
 theorem loadPing_complete (h : Head) (p : Bytes) (f' : Spec.Frame.Frame)
     (hs : Spec.Frame.ofParts 6 h.flag h.sid p = .ok f') :
@@ -150,8 +149,7 @@ theorem loadPing_complete (h : Head) (p : Bytes) (f' : Spec.Frame.Frame)
       congr 1
       rw [Bool.eq_iff_iff]
       simp only [Spec.Frame.flag, beq_iff_eq, decide_eq_true_eq]
-      have := and_pow_ne_zero_iff h.flag 0
-      simp [this]
+      simp
 
 theorem loadPing_error (h : Head) (p : Bytes) (v : Spec.Frame.Violation)
     (hs : Spec.Frame.ofParts 6 h.flag h.sid p = .error v) : ∃ e, loadPing h p = .error e :=
@@ -459,7 +457,7 @@ theorem applySetting_find (acc a : List (Nat × Nat)) (id v id' : Nat) (hk : id'
         · simp [hx]
       rw [hfun, if_neg hid]
       have : [(id, v)].find? (fun a : Nat × Nat => decide (a.1 = id')) = none := by
-        simp [List.find?_cons, Ne.symm hid]
+        simp [Ne.symm hid]
       rw [this, Option.or_none]
   unfold applySetting at h
   by_cases h1 : id = 1 ∨ id = 3 ∨ id = 6
@@ -509,7 +507,7 @@ theorem applyAll_find (ps : List (Nat × Nat)) : ∀ (acc a : List (Nat × Nat))
       congr 1
       by_cases hid : id' = id
       · subst hid; simp
-      · simp [List.find?_cons, hid, Ne.symm hid]
+      · simp [hid, Ne.symm hid]
 
 theorem filterMap_congr' {α β : Type} (f g : α → Option β) (l : List α) (h : ∀ x ∈ l, f x = g x) :
     l.filterMap f = l.filterMap g := by
